@@ -22,7 +22,8 @@ package main
 // of pooled transactions; (ii) every orphan is indexed under each unavailable
 // output it spends, every index entry points to a live orphan spending that
 // output; (iii) pool and orphans disjoint; (iv) after a submission no orphan is
-// complete (all inputs available) unless it already was before the submission.
+// complete (all inputs available) unless it already was before the submission,
+// and the submitted transaction itself is not a complete orphan.
 //
 // Correspondence: per operation the isOrphan flag and the sorted dump of the
 // four maps against C22.Run.run_case.
@@ -134,32 +135,33 @@ const unknownLabel = 999999
 const ttlTicks = 600
 
 type caseRun struct {
-	e        *env
-	n        *cl.Node
-	tip      *cl.BlockInfo
-	r        *Rng
-	spec     CaseSpec
-	univ     []*txInfo
-	byID     map[bc.Hash]*txInfo
-	outLabel map[bc.Hash]int
-	creators map[bc.Hash]int // output id -> number of distinct transactions of the universe creating it
-	nonOrig  map[bc.Hash]bool
-	chain    map[bc.Hash]bool // spendable in the chain's utxo set (harness bookkeeping)
-	chain0   []int
-	conf     map[int]bool // label -> confirmed
-	subm     map[int]bool
-	clock    uint64
-	logExp   map[bc.Hash]uint64
-	withdr   map[bc.Hash]map[bc.Hash]bool // orphan id -> outputs withdrawn from under it
-	counts   map[string]int
-	fails    []Fail
-	iops     []string
-	obs      []string
-	sawOrph  bool
-	sawPool  bool
-	rejectK  int
-	outside  bool // the history has left the guard of the theorem (withdrawal, shared output ids)
-	cut      int  // number of leading steps compared with the model (-1: all)
+	e         *env
+	n         *cl.Node
+	tip       *cl.BlockInfo
+	r         *Rng
+	spec      CaseSpec
+	univ      []*txInfo
+	byID      map[bc.Hash]*txInfo
+	outLabel  map[bc.Hash]int
+	creators  map[bc.Hash]int // output id -> number of distinct transactions of the universe creating it
+	nonOrig   map[bc.Hash]bool
+	chain     map[bc.Hash]bool // spendable in the chain's utxo set (harness bookkeeping)
+	chain0    []int
+	conf      map[int]bool // label -> confirmed
+	subm      map[int]bool
+	clock     uint64
+	logExp    map[bc.Hash]uint64
+	withdr    map[bc.Hash]map[bc.Hash]bool // orphan id -> outputs withdrawn from under it
+	counts    map[string]int
+	fails     []Fail
+	iops      []string
+	obs       []string
+	sawOrph   bool
+	sawPool   bool
+	rejectK   int
+	submitted *txInfo // the transaction of the submission being recorded
+	outside   bool    // the history has left the guard of the theorem (withdrawal, shared output ids)
+	cut       int     // number of leading steps compared with the model (-1: all)
 }
 
 func copyDir(src, dst string) error {
@@ -418,7 +420,7 @@ func (c *caseRun) fail(step int, class, msg string) {
 }
 
 // the property predicate on the implementation's maps
-func (c *caseRun) oracle(step int, kind string, pre, post *protocol.VerifPoolSnapshot) {
+func (c *caseRun) oracle(step int, kind string, submitted *txInfo, pre, post *protocol.VerifPoolSnapshot) {
 	pooled := map[bc.Hash]bool{}
 	for _, h := range post.Pool {
 		pooled[h] = true
@@ -501,6 +503,11 @@ func (c *caseRun) oracle(step int, kind string, pre, post *protocol.VerifPoolSna
 		}
 	}
 	// (iv)
+	if kind == "submit" && submitted != nil {
+		if _, isOrphan := post.Orphans[submitted.Tx.ID]; isOrphan && c.complete(post, submitted) {
+			c.fail(step, "complete-orphan-after-own-submission", fmt.Sprintf("transaction %d was submitted with all its parents available and sits in orphans", submitted.Label))
+		}
+	}
 	if kind == "submit" {
 		for h := range post.Orphans {
 			t, ok := c.byID[h]
@@ -602,7 +609,8 @@ func (c *caseRun) chainLabels() []int {
 // ---------------------------------------------------------------- operations
 
 func (c *caseRun) record(step int, kind string, iop string, flag bool, pre, post *protocol.VerifPoolSnapshot) {
-	c.oracle(step, kind, pre, post)
+	c.oracle(step, kind, c.submitted, pre, post)
+	c.submitted = nil
 	c.iops = append(c.iops, iop)
 	c.obs = append(c.obs, fmt.Sprintf("(%s, %s)", CoqBool(flag), c.dump(post)))
 	// Outside the guard what processOrphans does next may depend on Go's map order (an orphan that is
@@ -679,6 +687,7 @@ func (c *caseRun) apply(step int, op OpSpec) error {
 		} else if d == 1 && !isOrphan && len(pre.Orphans) > len(post.Orphans) && !wasOrphan {
 			c.counts["event:promotion-chain"]++
 		}
+		c.submitted = t
 		c.record(step, "submit", fmt.Sprintf("ISubmit %d %d", c.clock, op.T-1), isOrphan, pre, post)
 	case "remove":
 		var h bc.Hash
@@ -1355,7 +1364,7 @@ func runBatch(a BatchArgs) batchOut {
 
 func runC22(c *Ctx) error {
 	c.Stats.Rule = "transaction DAGs over 12 confirmed OP_TRUE roots of a real chain (chain, diamond, fan, multi-parent orphan with its inputs in random order, two families, random DAG with occasional double spends; retirement and vote outputs; 6% with a twin transaction) and 5-16 operations chosen from the pool's current state: submit a fresh transaction (children before parents more often than not), re-submit a pooled / orphaned / confirmed one, RemoveTransaction (pooled, unknown or other id), confirm a block of spendable transactions on the real chain, ExpireOrphan at / just after an orphan's expiration / before all / after all, refused dust or overspending transaction; a fixed corpus (parents of a 2- and 3-parent orphan in every arrival order, re-submission after confirmation, removal of an unconfirmed parent, twins, expiry boundary) runs first; distinct = distinct (universe, operation list); non-trivial = the case had at least one orphan and at least one pooled transaction"
-	total := c.N(500, 4000)
+	total := c.N(500, 3000)
 	per := 50
 	if c.Thorough() {
 		per = 125
